@@ -429,6 +429,27 @@ def run_val(t, v):
     put('p.bytes', enc)
     put('p.bytes2', E(lambda: bytes(x).hex()))
 
+    def seqmixin():
+        # the Sequence mix-in read paths: reversed(), `in`, index(), count() against indexing
+        n = len(x)
+        items = [x[i] for i in range(n)]
+        flags = [[to_val(t[1], e) if kind(t) in ('vec', 'list') else str(int(bool(e))) for e in reversed(x)]
+                 == [to_val(t[1], e) if kind(t) in ('vec', 'list') else str(int(bool(e))) for e in reversed(items)]]
+        for j in sorted({0, n // 2, n - 1}) if n else []:
+            e = items[j]
+            first = next(i for i in range(n) if items[i] == e)
+            flags += [e in x, x.index(e) == first, x.count(e) == sum(1 for q in items if q == e)]
+        if kind(t) in ('vec', 'list'):
+            # concatenation `v + v`: bytes for byte elements, otherwise the list of the elements of both
+            cat = x + x
+            if t[1] == 'u8':
+                flags.append(cat == bytes(int(e) for e in items) * 2)
+            else:
+                flags.append([to_val(t[1], e) for e in cat] == [to_val(t[1], e) for e in items] * 2)
+        return ''.join('1' if f else '0' for f in flags)
+    if not isinstance(t, str) and kind(t) in ('vec', 'list', 'bv', 'bl'):
+        put('p.seqmixin', E(seqmixin))
+
     def bytes3():
         # bytes(sub-value) for the direct sub-values (fields, first / last elements, union value), basic ones included
         subs = []
